@@ -508,6 +508,13 @@ def r6_writer_wellformed(ctx, res):
     r5_escaping(ctx, res)
 
 
+def r7_dump_writes_only_what_the_version_has(ctx, res):
+    """"every file dump() writes is accepted": the writer produces an element / attribute only under the versions the reader's
+    tables accept it in - the table and coverage analyses of C02-R1 / C02-R3 (a <Requires> in a 1.0 file is rejected by load)."""
+    from .c02 import r1_tables, r3_writer_coverage
+    r1_tables(ctx, res)
+    r3_writer_coverage(ctx, res)
+
 RULES = [
     ('C20-R1', r1_header, 6),
     ('C20-R2', r2_reader_rejects, 6),
@@ -515,4 +522,5 @@ RULES = [
     ('C20-R4', r4_scan_equals_load, 7),
     ('C20-R5', r5_parse_before_write, 5),
     ('C20-R6', r6_writer_wellformed, 7),
+    ('C20-R7', r7_dump_writes_only_what_the_version_has, 100),
 ]
